@@ -9,7 +9,9 @@ package main
 import (
 	"encoding/json"
 	"fmt"
+	"sort"
 	"strings"
+	"sync"
 	"sync/atomic"
 
 	"github.com/inspirer/textmapper/lalr"
@@ -253,6 +255,8 @@ func allAlts(m int) []alt {
 func run(c *core.Ctx) {
 	c.Rule("every set of n alternatives (n<=3 quick for m<=3; n<=4 thorough) drawn as combinations from all ordered conjunctions of distinct possibly-negated predicates over m<=3 predicates, placed in one parser state; accepted sets: all 2^m truth assignments; non-trivial = accepted set with >=1 assignment satisfying exactly one alternative; rejected sets that the reference calls exclusive+consistently ordered are counted as incompleteness (not a violation: the statement only constrains accepted sets and requires rejection of bad ones)")
 	var accepted, rejected, incomplete, decided, nontrivial int64
+	var accMu sync.Mutex
+	var acceptedSets []caseT
 	maxN := 3
 	if !c.Quick() {
 		maxN = 4
@@ -289,6 +293,11 @@ func run(c *core.Ctx) {
 							atomic.AddInt64(&decided, int64(o.decided))
 							if o.decided > 0 {
 								atomic.AddInt64(&nontrivial, 1)
+								if n <= 3 {
+									accMu.Lock()
+									acceptedSets = append(acceptedSets, k)
+									accMu.Unlock()
+								}
 							}
 							if c.SampleCount() < 3 && n == 3 {
 								c.Sample(map[string]any{"alternatives": k.String(), "verdict": "accepted", "assignments_decided": o.decided})
@@ -309,6 +318,22 @@ func run(c *core.Ctx) {
 				rec(1)
 			})
 		}
+	}
+	// Layer B on the accepted sets (deterministic order: by m, n, then text)
+	sort.Slice(acceptedSets, func(i, j int) bool {
+		a, b := acceptedSets[i], acceptedSets[j]
+		if a.M != b.M {
+			return a.M < b.M
+		}
+		if len(a.Alts) != len(b.Alts) {
+			return len(a.Alts) < len(b.Alts)
+		}
+		return a.String() < b.String()
+	})
+	if c.Quick() {
+		layerB(c, acceptedSets, 150)
+	} else {
+		layerB(c, acceptedSets, 4000)
 	}
 	c.Nontrivial(nontrivial)
 	c.Outcome("accepted", accepted)
